@@ -51,7 +51,11 @@ def merge(parts):
     for p in parts:
         m["evals"] += p["evals"]
         m["nontrivial"].update(p["nontrivial"])
-        m["stats"].update(p["stats"])
+        for k, v in p["stats"].items():
+            if k.startswith("max-"):
+                m["stats"][k] = max(m["stats"][k], v)
+            else:
+                m["stats"][k] += v
         if len(m["samples"]) < 6:
             m["samples"].extend(p["samples"][: 6 - len(m["samples"])])
         m["violations"].extend(p["violations"])
